@@ -361,6 +361,13 @@ func genC17(g *Gen, tier string, idx int) *wire.Scenario {
 	if g.P(20) {
 		env.Multiline = "backslash"
 	}
+	// configuration variables that touch the selection machinery the operators go through
+	if g.P(30) {
+		env.Inputrc = append(env.Inputrc, "set blink-matching-paren on")
+	}
+	if g.P(10) {
+		env.Inputrc = append(env.Inputrc, "set mark-modified-lines on")
+	}
 	env.Binds = g.Cat.Extra
 	script, text := g.setupBuffer(&env, "vi", g.P(15))
 	warm := 0
